@@ -18,10 +18,10 @@ LEVEL_NOTE = 'No reference model: the identities are the oracle. Crystals with o
 
 TOL, TOL_VB = 1e-9, 'max(1e-7, 20 x measured GF diffusion-equation residual of the node)'
 QUICK = [('FCC', 0, 1), ('BCC', 0, 1), ('HCP', 0, 1), ('SQUARE', 0, 1), ('HONEY', 0, 1), ('OMEGA', 0, 1), ('FCC', 0, 2),
-         ('RECTM', 0, 1), ('DIAMOND', 0, 1), ('HCP15', 1, 1), ('NBO', 0, 1)]
+         ('RECTM', 0, 1), ('RECTMX', 0, 1), ('DIAMOND', 0, 1), ('HCP15', 1, 1), ('NBO', 0, 1)]
 THOROUGH = QUICK + [('B2', 0, 1), ('ROMEGA', 0, 1), ('SC', 0, 1), ('TET', 1, 1), ('TRIA', 0, 1), ('KAGOME', 0, 1), ('L12', 0, 1), ('WURTZ2', 0, 1), ('FCC', 1, 1),
                     ('BCC', 0, 2), ('HCP', 0, 2), ('SQUARE', 0, 2), ('HONEY', 0, 2), ('OMEGA', 0, 2), ('B2', 0, 2), ('RECTM', 0, 2),
-                    ('ORTH', 2, 1), ('TRIC', 1, 1), ('PYROPE', 0, 1)]
+                    ('ORTH', 2, 1), ('TRIC', 2, 1), ('PYROPE', 0, 1)]
 CHUNK = 40
 
 
